@@ -1412,7 +1412,13 @@ func (e *Engine) checkCutsAt(st *State, fr *Frame, atReturn bool) {
 		if st.cuts[a.Name] {
 			continue
 		}
-		if a.Guard != nil {
+		posReady := true
+		if a.After == "return" {
+			posReady = atReturn
+		} else if a.After != "" && st.binds[a.After] < a.AfterN {
+			posReady = false
+		}
+		if a.Guard != nil && posReady {
 			env := e.specEnv(st, fr.old, fr.fn, fr.contract, nil)
 			env.vars = fr.params
 			skip := false
